@@ -80,6 +80,8 @@ pub struct Model<'p> {
     pub verified_without_exec: u64,
     pub c03_judged: u64,
     pub check_c03: bool,
+    /// reads an invocation has started and not completed yet
+    pub open_reads: HashMap<usize, Vec<u32>>,
     /// (external-input node, refresh number) pairs already seen
     pub refreshed: HashMap<(u32, u64), ()>,
     /// see `RunCfg::no_values`
@@ -167,6 +169,7 @@ impl<'p> Model<'p> {
             verified_without_exec: 0,
             c03_judged: 0,
             check_c03: true,
+            open_reads: HashMap::new(),
             refreshed: HashMap::new(),
             no_values: false,
             unord_below: unord_below(prog),
@@ -513,6 +516,17 @@ impl<'p> Model<'p> {
         }
     }
 
+    /// the invocation is over: reads it started and never completed were
+    /// abandoned; the engine may have verified stale nodes on their behalf
+    fn abandoned_reads(&mut self, id: usize, invs: &[Inv]) {
+        if let Some(deps) = self.open_reads.remove(&id) {
+            let node = invs[id].node;
+            for d in deps {
+                self.touch(d, &format!("executor of node {node} (abandoned read)"));
+            }
+        }
+    }
+
     fn inputs_complete(&self) -> bool {
         self.prog.of_kind(Kind::In).iter().all(|i| self.inputs.contains_key(i))
     }
@@ -603,13 +617,23 @@ impl<'p> Model<'p> {
         match ev {
             Ev::Enter(_) => Ok(()),
             Ev::Read(id, dep, val) => {
+                if let Some(v) = self.open_reads.get_mut(id) {
+                    if let Some(p) = v.iter().position(|d| d == dep) {
+                        v.remove(p);
+                    }
+                }
                 let node = invs[*id].node;
                 self.serve(*dep, val, &format!("executor of node {node}"))
             }
-            Ev::Abort(_) => Ok(()),
+            Ev::Abort(id) => {
+                self.abandoned_reads(*id, invs);
+                Ok(())
+            }
             Ev::ReadStart(id, dep) => {
-                let node = invs[*id].node;
-                self.touch(*dep, &format!("executor of node {node} (read started)"));
+                // judged when the invocation ends: only a read that was
+                // started and never completed (an abandoned sub-query) counts,
+                // and by then the passes the engine ran for it are known
+                self.open_reads.entry(*id).or_default().push(*dep);
                 Ok(())
             }
             Ev::Outside(id) => {
@@ -638,6 +662,7 @@ impl<'p> Model<'p> {
                 Ok(())
             }
             Ev::Exit(id) => {
+                self.abandoned_reads(*id, invs);
                 let inv = &invs[*id];
                 let n = inv.node;
                 let value = inv.result.clone().unwrap();
